@@ -303,6 +303,17 @@ func TestVerif_C02(t *testing.T) {
 			t.Fatal(err)
 		}
 		c.item(c02Item{Level: rp.Level, Layer: rp.Layer, Src: rp.Src, Route: rp.Route, Reqs: []c02Req{rp.Req}})
+		if f := os.Getenv("C02_SHOW"); f != "" {
+			// debugging aid: both levels' outcomes of the replayed case, whether or not they agree
+			if mod, err := parseSource(rp.Src); err == nil && rp.Route < len(c02Routes(mod)) {
+				route := c02Routes(mod)[rp.Route]
+				es, ei, ev := c02RunEngine(mod, route, rp.Req)
+				hs, hi, hv := c02RunHTTP(mod, route, rp.Req, true)
+				os.WriteFile(f, []byte(fmt.Sprintf("engine serve=%d\n  interp: %s\n  vm:     %s\nhttp serve=%d\n  interp: %s\n  vm:     %s\n", es, ei, ev, hs, hi, hv)), 0o644)
+			} else {
+				os.WriteFile(f, []byte(fmt.Sprintf("parse: %v\n", err)), 0o644)
+			}
+		}
 		ok := len(res.Violations) > 0
 		for _, v := range res.Violations {
 			fmt.Fprintf(stdout, "replay -> %s :: %s\n", v.Key, v.Desc)
